@@ -126,6 +126,78 @@ def boundary_values(n):
     return sorted(set([0, 1, 2, n - 2, n - 1, n, n + 1, 2 * n - 1, 2 * n, 2 * n + 1, 3 * n]))
 
 
+class _Conds:
+    def __init__(self, conds):
+        self.conds = conds
+
+
+def decide_subscript(chk, m, info, fn, conds, sub, inst, what, depth):
+    """L1 for one access: subscript expression `sub` under branch conditions `conds` inside fn."""
+    from ..domains.lin import Lin, expr_to_lin
+    head_off, line_off, n, esz = info
+    p = _Conds(conds)
+    if mod_n(sub, n) is not None:
+        chk.ob("L1.subscript-in-bounds", what, True, "subscript %s is a residue mod %d" % (fmt(sub)[:60], n), inst.loc, fn.name)
+        return
+    if bounded_by_conds(sub, p, n):
+        chk.ob("L1.subscript-in-bounds", what, True, "subscript %s is tested against %d on this path" % (fmt(sub)[:60], n), inst.loc, fn.name)
+        return
+
+    def atom_of(x):
+        if x[0] == "arg":
+            return "arg%d" % x[1]
+        if x[0] == "ld" and is_head(x[1], info):
+            return "head"
+        return None
+    pr, skipped = path_prover(p, info, atom_of)
+    idx = expr_to_lin(norm_head(sub, info), atom_of)
+    named = all(isinstance(k, str) for k in idx.atoms())
+    if named and pr.prove_ge0(idx) and pr.prove_le(idx, Lin.const(n - 1)):
+        chk.ob("L1.subscript-in-bounds", what, True, "subscript %s proved within [0, %d] from the path conditions" % (idx, n - 1),
+               inst.loc, fn.name)
+        return
+    if fn.internal and named and any(a.startswith("arg") for a in idx.atoms()):
+        # a file-local helper: its arguments are whatever its callers pass
+        if range_walker_summary(m, fn, info) is not None:
+            chk.ob("L1.subscript-in-bounds", what, True, "%s walks the slots [arg, arg): the ranges its callers pass are "
+                   "bounded by rule L6.dump-range-bounds" % fn.name, inst.loc, fn.name)
+            return
+        if depth >= 2:
+            chk.unknown("L1.subscript-in-bounds", what, "subscript %s depends on the arguments of file-local %s through more than "
+                        "two levels of callers" % (idx, fn.name), inst.loc)
+            return
+        ncall = 0
+        for caller in m.defined_functions():
+            if caller.name == fn.name:
+                continue
+            for cp in paths.enumerate_paths(caller, m, loop_bound=1):
+                for e in cp.events:
+                    if e.kind == "call" and e.callee == fn.name:
+                        ncall += 1
+                        # branch conditions that depend on the result of this call (or a later one) are evaluated after
+                        # the access and are not preconditions of it
+                        seq = e.res[3] if e.res is not None and e.res[0] == "call" else None
+                        later = lambda c: seq is not None and paths.contains(c, lambda x: x[0] == "call" and len(x) > 3 and
+                                                                             isinstance(x[3], int) and x[3] >= seq)
+                        cc = [x for x in cp.conds if not later(x[0])] + [(paths.subst_args(c, e.args), t, i) for c, t, i in conds]
+                        decide_subscript(chk, m, info, caller, cc, paths.subst_args(sub, e.args), inst,
+                                         "%s called from %s line %s" % (what, caller.name, e.inst.loc.split(":")[-1] if e.inst.loc else "?"), depth + 1)
+        if ncall == 0:
+            chk.ob("L1.subscript-in-bounds", what, True, "file-local %s has no callers" % fn.name, inst.loc, fn.name)
+        return
+    env = None
+    if named and not skipped:
+        atoms = sorted(idx.atoms() | set().union(*[h.atoms() for h in pr.hyps + pr.neqs]) if (pr.hyps or pr.neqs) else idx.atoms())
+        env = pr.refute_ge0(Lin.const(n - 1) - idx, {a: boundary_values(n) for a in atoms})
+    if env is not None:
+        chk.ob("L1.subscript-in-bounds", what, False,
+               "subscript %s of log.line[%d] can be out of bounds, e.g. with %s" % (idx, n, {k: int(v) for k, v in env.items()}),
+               inst.loc, fn.name)
+    else:
+        chk.unknown("L1.subscript-in-bounds", what, "subscript %s of log.line is neither a residue mod %d nor bounded by "
+                    "the path conditions: not decided%s" % (fmt(sub)[:60], n, ("; conditions not modelled: %s" % skipped) if skipped else ""), inst.loc)
+
+
 def check_subscripts(chk, m, info):
     n_acc = 0
     head_off, line_off, n, esz = info
@@ -144,36 +216,7 @@ def check_subscripts(chk, m, info):
                     sites.append((p, la, p.ret_inst, "%s returned line" % fn.name))
         for p, la, inst, what in sites:
             n_acc += 1
-            if mod_n(la[0], n) is not None:
-                chk.ob("L1.subscript-in-bounds", what, True, "subscript %s is a residue mod %d" % (fmt(la[0])[:60], n), inst.loc, fn.name)
-            elif bounded_by_conds(la[0], p, n):
-                chk.ob("L1.subscript-in-bounds", what, True, "subscript %s is tested against %d on this path" % (fmt(la[0])[:60], n), inst.loc, fn.name)
-            else:
-                from ..domains.lin import Lin, expr_to_lin
-
-                def atom_of(x):
-                    if x[0] == "arg":
-                        return "arg%d" % x[1]
-                    if x[0] == "ld" and is_head(x[1], info):
-                        return "head"
-                    return None
-                pr, skipped = path_prover(p, info, atom_of)
-                idx = expr_to_lin(norm_head(la[0], info), atom_of)
-                if all(isinstance(k, str) for k in idx.atoms()) and pr.prove_ge0(idx) and pr.prove_le(idx, Lin.const(n - 1)):
-                    chk.ob("L1.subscript-in-bounds", what, True, "subscript %s proved within [0, %d] from the path conditions" % (idx, n - 1),
-                           inst.loc, fn.name)
-                    continue
-                env = None
-                if all(isinstance(k, str) for k in idx.atoms()) and not skipped:
-                    atoms = sorted(idx.atoms() | set().union(*[h.atoms() for h in pr.hyps + pr.neqs]) if (pr.hyps or pr.neqs) else idx.atoms())
-                    env = pr.refute_ge0(Lin.const(n - 1) - idx, {a: boundary_values(n) for a in atoms})
-                if env is not None:
-                    chk.ob("L1.subscript-in-bounds", what, False,
-                           "subscript %s of log.line[%d] can be out of bounds, e.g. with %s" % (idx, n, {k: int(v) for k, v in env.items()}),
-                           inst.loc, fn.name)
-                else:
-                    chk.unknown("L1.subscript-in-bounds", what, "subscript %s of log.line is neither a residue mod %d nor bounded by "
-                                "the path conditions: not decided" % (fmt(la[0])[:60], n), inst.loc)
+            decide_subscript(chk, m, info, fn, p.conds, la[0], inst, what, 0)
     chk.expect("L1", "subscripted accesses to log.line", n_acc, 5)
 
 
@@ -434,12 +477,182 @@ def check_readers(chk, m, info):
         if not good:
             ok_all = False
     if not any(e.kind == "call" and e.callee == "get_line" for p in ps for e in p.events):
-        chk.unknown("L6.dump", "mlog_dump", "mlog_dump does not iterate through get_line(0), get_line(1), ...: this enumeration "
-                    "idiom is not modelled, so agreement with mlog_get_line cannot be decided", fd.loc)
+        if not check_dump_ranges(chk, m, info, fd):
+            chk.unknown("L6.dump", "mlog_dump", "mlog_dump neither iterates through get_line(0), get_line(1), ... nor is a sequence of "
+                        "range walks over log.line: this enumeration idiom is not modelled", fd.loc)
     else:
         chk.ob("L6.dump", "mlog_dump", ok_all and seen_iter >= 2,
                "mlog_dump prints get_line(0), get_line(1), ... in order with fmt and arg[0..%d], stopping at the first NULL "
                "(checked on all paths with up to 2 loop iterations)" % (nargs - 1), fd.loc, fd.name)
+
+
+def range_walker_summary(m, fn, info):
+    """If fn(f, from, to) prints the lines of slots from, from+1, ..., to-1 (index or pointer loop), return
+    (from_arg, to_arg); else None."""
+    head_off, line_off, n, esz = info
+    heads = fn.loops_headers()
+    if len(heads) != 1:
+        return None
+    H = list(heads)[0]
+    segs = [(s, p) for s, p in paths.enumerate_segments(fn, m) if p.end != "unreachable"]
+    entry = [p for s, p in segs if s == fn.entry.name and p.end == "cut:" + H]
+    body = [p for s, p in segs if s == H and p.end == "cut:" + H]
+    exit_ = [p for s, p in segs if s == H and p.end == "ret"]
+    if len(entry) != 1 or len(body) != 1 or len(exit_) != 1 or entry[0].conds:
+        return None
+    carried = getattr(entry[0], "carried", {})
+    if len(carried) != 1:
+        return None
+    var, e0 = list(carried.items())[0]
+
+    def slot_of(e):
+        """expression for the slot number: ('arg', k) / ('sym', var) (+const) or None"""
+        e = strip_casts(e)
+        if e[0] in ("arg", "sym"):
+            return ("idx", e, 0)
+        root, off, v = ptr_parts(e)
+        if root == ("g", "log") and len(v) == 1 and v[0][1] == esz and (off - line_off) % esz == 0:
+            return ("idx", strip_casts(v[0][0]), (off - line_off) // esz)
+        if root[0] == "sym" and not v and off % esz == 0:
+            return ("ptr", root, off // esz)
+        return None
+    s0 = slot_of(e0)
+    if s0 is None or s0[2] != 0 or s0[1][0] != "arg":
+        return None
+    from_arg = s0[1][1]
+    b = body[0]
+    pr = [e for e in b.events if e.kind == "call" and e.callee == "fprintf"]
+    if len(pr) != 1:
+        return None
+    fmtv = strip_casts(pr[0].args[1])
+    if fmtv[0] != "ld":
+        return None
+    ptr_mode = slot_of(e0)[0] == "idx" and ptr_parts(e0)[0] == ("g", "log")
+    cur = slot_of(fmtv[1])
+    sym = ("sym", var)
+    if cur is None or cur[2] != 0 or cur[1] != sym:
+        # pointer-valued loop variable: the line printed is *var
+        if not (ptr_parts(fmtv[1]) == (sym, 0, ())):
+            return None
+    if not check_format_args(pr[0].args[1:], ptr_parts(fmtv[1])[0] if ptr_parts(fmtv[1])[2] == () and ptr_parts(fmtv[1])[0] == sym else fmtv[1], (esz - 8) // 8, 0):
+        # arguments must be the fields of the same line
+        base = fmtv[1]
+        ok = len(pr[0].args) == (esz - 8) // 8 + 2
+        for i, a in enumerate(pr[0].args[1:]):
+            a = strip_casts(a)
+            if a[0] != "ld" or a[1] != paths.mkptr(base, 8 * i):
+                ok = False
+        if not ok:
+            return None
+    step = b.carried.get(var)
+    if step is None:
+        return None
+    st = strip_casts(step)
+    ok_step = st == ("b", "add", st[2] if len(st) > 2 else 0, sym, ("c", st[2] if len(st) > 2 else 0, 1)) or st == paths.mkptr(sym, esz)
+    if not ok_step:
+        return None
+    # continue condition: var < to  (index or pointer form)
+    to_arg = None
+    for c, taken, inst in b.conds:
+        cc = strip_casts(c)
+        if cc[0] == "icmp" and cc[1] in ("ult", "slt") and taken and strip_casts(cc[2]) == sym:
+            t = slot_of(cc[3])
+            if t and t[2] == 0 and t[1][0] == "arg":
+                to_arg = t[1][1]
+    if to_arg is None:
+        return None
+    return from_arg, to_arg
+
+
+def check_dump_ranges(chk, m, info, fd):
+    """mlog_dump as a sequence of range walks: compare, case by case on head, with the sequence get_line defines."""
+    from ..domains.lin import Lin, Prover, expr_to_lin
+    head_off, line_off, n, esz = info
+    N = n
+    ps = [p for p in paths.enumerate_paths(fd, m) if not paths.is_assert_fail_path(p)]
+    helpers = {}
+    for p in ps:
+        for e in p.events:
+            if e.kind == "call" and isinstance(e.callee, str) and m.has_fn(e.callee) and e.callee not in helpers:
+                helpers[e.callee] = range_walker_summary(m, m.functions[e.callee], info)
+    if not helpers or any(v is None for v in helpers.values()):
+        return False
+    Hd, Rr = Lin.atom("head"), Lin.atom("r")
+
+    def atom_of(x):
+        if x[0] == "ld" and is_head(x[1], info):
+            return "head"
+        if x[0] == "b" and x[1] in ("urem",) and x[4][0] == "c" and x[4][2] == N and strip_casts(x[3])[0] == "ld" and is_head(strip_casts(x[3])[1], info):
+            return "r"
+        if x[0] == "b" and x[1] == "and" and x[4][0] == "c" and x[4][2] == N - 1 and N & (N - 1) == 0 and strip_casts(x[3])[0] == "ld" \
+                and is_head(strip_casts(x[3])[1], info):
+            return "r"
+        return None
+    cases = {
+        "head == 0": lambda pr: (pr.assume_eq(Hd, Lin.const(0)), pr.assume_eq(Rr, Lin.const(0))),
+        "0 < head < N": lambda pr: (pr.assume_le(Lin.const(1), Hd), pr.assume_le(Hd, Lin.const(N - 1)), pr.assume_eq(Rr, Hd)),
+        "head == N": lambda pr: (pr.assume_eq(Hd, Lin.const(N)), pr.assume_eq(Rr, Lin.const(0))),
+        "head > N, head mod N == 0": lambda pr: (pr.assume_le(Lin.const(N + 1), Hd), pr.assume_eq(Rr, Lin.const(0))),
+        "head > N, head mod N >= 1": lambda pr: (pr.assume_le(Lin.const(N + 1), Hd), pr.assume_le(Lin.const(1), Rr), pr.assume_le(Rr, Lin.const(N - 1))),
+    }
+    spec = {
+        "head == 0": [],
+        "0 < head < N": [(Lin.const(0), Hd)],
+        "head == N": [(Lin.const(0), Lin.const(N))],
+        "head > N, head mod N == 0": [(Lin.const(0), Lin.const(N))],
+        "head > N, head mod N >= 1": [(Rr, Lin.const(N)), (Lin.const(0), Rr)],
+    }
+    for cname, setup in cases.items():
+        pr0 = Prover()
+        setup(pr0)
+        chosen = []
+        for p in ps:
+            pr = pr0.clone()
+            ok = True
+            for c, taken, inst in p.conds:
+                cc = strip_casts(c)
+                if cc[0] != "icmp":
+                    return False
+                a, b = expr_to_lin(norm_head(cc[2], info), atom_of), expr_to_lin(norm_head(cc[3], info), atom_of)
+                if not all(isinstance(k, str) for k in a.atoms() | b.atoms()):
+                    return False
+                pred = cc[1] if taken else {"ult": "uge", "uge": "ult", "ule": "ugt", "ugt": "ule", "eq": "ne", "ne": "eq",
+                                            "slt": "sge", "sge": "slt", "sle": "sgt", "sgt": "sle"}[cc[1]]
+                p2 = pred[1:] if pred[0] in "us" and len(pred) == 3 else pred
+                {"lt": lambda: pr.assume_lt(a, b), "le": lambda: pr.assume_le(a, b), "gt": lambda: pr.assume_lt(b, a),
+                 "ge": lambda: pr.assume_le(b, a), "eq": lambda: pr.assume_eq(a, b), "ne": lambda: pr.assume_ne(a, b)}[p2]()
+            if not pr.infeasible():
+                chosen.append((p, pr))
+        if len(chosen) != 1:
+            chk.unknown("L6.dump", "mlog_dump case %s" % cname, "%d paths feasible in this case" % len(chosen), fd.loc)
+            continue
+        p, pr = chosen[0]
+        got = []
+        for e in p.events:
+            if e.kind == "call" and e.callee in helpers:
+                fa, ta = helpers[e.callee]
+                a = expr_to_lin(norm_head(e.args[fa], info), atom_of)
+                b = expr_to_lin(norm_head(e.args[ta], info), atom_of)
+                if pr.prove_le(b, a):
+                    continue            # empty range
+                if not pr.prove_lt(a, b):
+                    got = None
+                    break
+                got.append((a, b))
+        if got is None:
+            chk.unknown("L6.dump", "mlog_dump case %s" % cname, "a range is neither provably empty nor provably non-empty", fd.loc)
+            continue
+        for g in got:
+            inb = pr.prove_ge0(g[0]) and pr.prove_le(g[1], Lin.const(N))
+            chk.ob("L6.dump-range-bounds", "mlog_dump case %s range [%s,%s)" % (cname, g[0], g[1]), inb,
+                   "the range walked lies within [0,%d]" % N if inb else "the range walked is not within log.line[0..%d)" % N, fd.loc, fd.name)
+        want = spec[cname]
+        same = len(got) == len(want) and all(pr.prove_eq(g[0], w[0]) and pr.prove_eq(g[1], w[1]) for g, w in zip(got, want))
+        chk.ob("L6.dump", "mlog_dump case %s" % cname, same,
+               "slots printed: %s; slots mlog_get_line(0..) yields: %s%s" %
+               (["[%s,%s)" % g for g in got] or "none", ["[%s,%s)" % w for w in want] or "none",
+                "" if same else " - mlog_dump and mlog_get_line disagree in this case (with r = head mod %d)" % N), fd.loc, fd.name)
+    return True
 
 
 def check_format_args(args, line, nargs, base):
